@@ -181,8 +181,13 @@ func vEval(sc *ast.Schema, w *vWorld, ss ast.SelectionSet, typ string, e vEnt, v
 	return res
 }
 
+// vRootRef is a field that hands out a root object again (a payload's "query: Query")
+type vRootRef string
+
 func vConv(sc *ast.Schema, w *vWorld, s *ast.Field, v interface{}, vars map[string]interface{}) interface{} {
 	switch v := v.(type) {
+	case vRootRef:
+		return vEval(sc, w, s.SelectionSet, string(v), nil, vars)
 	case vRef:
 		return vEval(sc, w, s.SelectionSet, v.typ, w.ents[v.id], vars)
 	case []vRef:
